@@ -328,7 +328,7 @@ def run_tlc(module: str, cfg: str | None = None, *, spec_dir: Path | str = SPEC,
     cmd += ["-cp", f"{JAR}:{DEPS}", "tlc2.TLC", "-metadir", str(work / "meta"), "-noGenerateSpecTE",
             "-config", str(cfgp)]
     if workers == "auto":
-        workers = 1 if simulate and "file=" in (simulate or "") else min(16, os.cpu_count() or 4)
+        workers = 1 if simulate and "file=" in (simulate or "") else int(os.environ.get("VERIF_TLC_WORKERS", min(16, os.cpu_count() or 4)))
     cmd += ["-workers", str(workers)]
     if not deadlock:
         cmd.append("-deadlock")
